@@ -90,6 +90,32 @@ theorem c09_evict_unregisters (c : Cfg) (s : Spec.State) (k : Nat) (e : Entry) (
     simpa using this
   rw [this]; rfl
 
+/-- C20: an accepted automatic removal counts exactly one eviction with the removed entry's weight (the code: RecordEviction
+    under `if deleted`, `c06_gen_evict_reports_only_removed`); a stale node or an absent key counts nothing -/
+theorem c20_eviction_counted_once (c : Cfg) (s : Spec.State) (k : Nat) (same : Bool) (s' : Spec.State) (evs : List Event)
+    (hacc : specEvict c s k same = some (s', evs)) :
+    (evs = [] ∧ s'.stats = s.stats) ∨
+    (∃ e, s.phys k = some e ∧ evs.length = 1 ∧ s'.stats.evictions = s.stats.evictions + 1 ∧
+      s'.stats.evictionWeight = s.stats.evictionWeight + e.weight) := by
+  unfold specEvict at hacc
+  cases hp : s.phys k with
+  | none =>
+    rw [hp] at hacc
+    simp only [Option.some.injEq, Prod.mk.injEq] at hacc
+    left; exact ⟨hacc.2.symm, by rw [← hacc.1]⟩
+  | some e =>
+    rw [hp] at hacc
+    cases same with
+    | false =>
+      simp only [Bool.false_eq_true, ↓reduceIte, Option.some.injEq, Prod.mk.injEq] at hacc
+      left; exact ⟨hacc.2.symm, by rw [← hacc.1]⟩
+    | true =>
+      simp only [↓reduceIte, Option.map_eq_some_iff, Prod.mk.injEq] at hacc
+      obtain ⟨s1, hev, hs1, hevs⟩ := hacc
+      have := evict_some c s _ e s1 hp hev
+      right
+      refine ⟨e, rfl, by rw [← hevs]; rfl, ?_, ?_⟩ <;> rw [← hs1, this] <;> rfl
+
 /-- C13: the removal of an entry whose deadline has passed needs no further justification — once the wheel finds the node
     the spec accepts the Expiration report -/
 theorem c13_expired_removal_accepted (c : Cfg) (s : Spec.State) (k : Nat) (e : Entry) (hp : s.phys k = some e)
